@@ -11,25 +11,26 @@ CONSTANTS CheckOutput, CheckBounds
 
 Rec == ndJsonDeserialize(IOEnv.TRACE)
 
-VARIABLES l, cfg, ins, since, live, allsmall
-vars == <<l, cfg, ins, since, live, allsmall>>
+VARIABLES l, cfg, ins, since, live, allsmall, cfail
+vars == <<l, cfg, ins, since, live, allsmall, cfail>>
 
 NoCfg == [teff |-> 0, realloc |-> FALSE, maxc |-> 1, stable |-> TRUE, mf |-> "concat"]
-TraceInit == l = 1 /\ cfg = NoCfg /\ ins = <<>> /\ since = 0 /\ live = 0 /\ allsmall = TRUE
+TraceInit == l = 1 /\ cfg = NoCfg /\ ins = <<>> /\ since = 0 /\ live = 0 /\ allsmall = TRUE /\ cfail = FALSE
 IsEvent(e) == l <= Len(Rec) /\ Rec[l].ev = e /\ l' = l + 1
 
-EvReset == IsEvent("Reset") /\ cfg' = NoCfg /\ ins' = <<>> /\ since' = 0 /\ live' = 0 /\ allsmall' = TRUE
-EvDict == IsEvent("Dict") /\ StrictlyAscending(Rec[l].strs) /\ UNCHANGED <<cfg, ins, since, live, allsmall>>
+EvReset == IsEvent("Reset") /\ cfg' = NoCfg /\ ins' = <<>> /\ since' = 0 /\ live' = 0 /\ allsmall' = TRUE /\ cfail' = FALSE
+EvDict == IsEvent("Dict") /\ StrictlyAscending(Rec[l].strs) /\ UNCHANGED <<cfg, ins, since, live, allsmall, cfail>>
 EvSCfg ==
     /\ IsEvent("SCfg")
     /\ cfg' = [teff |-> Rec[l].teff, realloc |-> Rec[l].realloc, maxc |-> Rec[l].maxc, stable |-> Rec[l].stable, mf |-> Rec[l].mf]
-    /\ ins' = <<>> /\ since' = 0 /\ live' = 0 /\ allsmall' = TRUE
+    /\ ins' = <<>> /\ since' = 0 /\ live' = 0 /\ allsmall' = TRUE /\ cfail' = FALSE
 
 \* Sorter::insert returned
 EvSIns ==
     /\ IsEvent("SIns")
     /\ LET e == Rec[l] IN
        /\ e.res = "ok"
+       /\ cfail' = FALSE
        /\ ins' = Append(ins, [k |-> e.k, id |-> e.id, size |-> e.size])
        /\ since' = since + e.size
        /\ allsmall' = (allsmall /\ Small(e.size, cfg.teff))
@@ -38,19 +39,28 @@ EvSIns ==
        /\ (CheckBounds /\ allsmall') => since' <= Bound(cfg.teff, cfg.realloc)
     /\ UNCHANGED <<cfg, live>>
 
+\* the chunk creator failed (injected, transient): the insert in progress returns that error and
+\* stores nothing; the caller may retry.  Nothing was spilled, so the volume keeps counting.
+EvCreateFail == IsEvent("CreateFail") /\ cfail' = TRUE /\ UNCHANGED <<cfg, ins, since, live, allsmall>>
+EvSInsFailed ==
+    /\ IsEvent("SIns")
+    /\ Rec[l].res # "ok" /\ cfail
+    /\ cfail' = FALSE
+    /\ UNCHANGED <<cfg, ins, since, live, allsmall>>
+
 \* the sorter asked the user-supplied creator for a chunk: a spill (or a chunk merge)
 EvCreate ==
     /\ IsEvent("Create")
     /\ since' = 0
     /\ live' = live + 1
     /\ CheckBounds => live' <= LiveBound(cfg.maxc)
-    /\ UNCHANGED <<cfg, ins, allsmall>>
+    /\ UNCHANGED <<cfg, ins, allsmall, cfail>>
 
 EvDrop ==
     /\ IsEvent("Drop")
     /\ live >= 1
     /\ live' = live - 1
-    /\ UNCHANGED <<cfg, ins, since, allsmall>>
+    /\ UNCHANGED <<cfg, ins, since, allsmall, cfail>>
 
 \* the output of the sorter, obtained by streaming, through a writer, or by merging the
 \* returned chunk cursors
@@ -59,9 +69,9 @@ EvSOut ==
     /\ LET e == Rec[l] IN
        /\ e.res = "ok"
        /\ CheckOutput => OutputOk(ins, e.entries, cfg.stable, cfg.mf)
-    /\ UNCHANGED <<cfg, ins, since, live, allsmall>>
+    /\ UNCHANGED <<cfg, ins, since, live, allsmall, cfail>>
 
-TraceNext == EvReset \/ EvDict \/ EvSCfg \/ EvSIns \/ EvCreate \/ EvDrop \/ EvSOut
+TraceNext == EvReset \/ EvDict \/ EvSCfg \/ EvSIns \/ EvSInsFailed \/ EvCreateFail \/ EvCreate \/ EvDrop \/ EvSOut
 TraceSpec == TraceInit /\ [][TraceNext]_vars
 TraceAccepted ==
     LET d == TLCGet("stats").diameter IN
